@@ -100,8 +100,9 @@ func c10Run(e *core.Env) {
 		ys = append(opsFrom(selCoefY, -3, 3), Edge([]int32{-1, 0, 40})...)
 		xs = opsFrom(selCoefQuick, -3, 3)
 		xs = append(xs, Edge([]int32{-129, -40, 0, 1, 40})...)
-		for _, p := range []uint32{20, 38} {
-			// quotients of 20-38 digits: coefficients across the 64- and 128-bit boundaries
+		for _, p := range []uint32{19, 20, 38, 39} {
+			// quotients of 19-39 digits: coefficients across the 64- and 128-bit boundaries (a 20-digit quotient
+			// below 2^64 must be impossible at precision 19, a 39-digit one below 2^128 at precision 38)
 			ctxs = append(ctxs, MkCtx(p, -6143, 6144, apd.RoundHalfEven, 0), MkCtx(p, -6143, 6144, apd.RoundFloor, 0))
 		}
 		for _, p := range []uint32{1, 2, 3, 9} {
@@ -190,7 +191,7 @@ func init() {
 			if tier == "thorough" {
 				return "x in DENSE(3,5)+EDGE, y in selected DENSE(3,4)+EDGE, contexts p in {1,2,3,4,5,9} x 11 ranges x 3 modes + 4 ranges narrower than the precision (Emax < p-1, Emin > 0) x 2 modes; LIMIT x (LIMIT + 4 small) in both orders at p in {3,9}"
 			}
-			return "x in 69 selected coefficients x exp[-4,4] x sign + EDGE, y in 21 coefficients x exp[-3,3] x sign + EDGE, contexts p in {1,2,3,9} x 4 ranges x 4 modes (half_even, up, floor, ceiling) + p in {20,38} x 2 modes + 4 ranges narrower than the precision (Emax < p-1, Emin > 0) x 2 modes; LIMIT x (LIMIT + 4 small) in both orders at p in {3,9}"
+			return "x in 69 selected coefficients x exp[-4,4] x sign + EDGE, y in 21 coefficients x exp[-3,3] x sign + EDGE, contexts p in {1,2,3,9} x 4 ranges x 4 modes (half_even, up, floor, ceiling) + p in {19,20,38,39} x 2 modes + 4 ranges narrower than the precision (Emax < p-1, Emin > 0) x 2 modes; LIMIT x (LIMIT + 4 small) in both orders at p in {3,9}"
 		},
 		Run:    c10Run,
 		Replay: c10Replay,
